@@ -6,6 +6,9 @@ func init() {
 			Reach:       []string{"add-duplicate", "removed", "expired"},
 			Assumptions: []string{"IDs are introduced in order of first use (the structures only compare IDs for equality, so any other naming is a renaming)", "single-threaded use (ExpiryHeap has no lock; its users hold their own)"},
 			Outside:     []string{"more than maxOps operations", "more than `ids` distinct IDs"}},
+		{Name: "heapshape", Pkg: "internal/eheap", Files: []string{"internal_eheap/c25_eheap.go"}, Entry: "VerifC25HeapShape",
+			Assumptions: []string{"single-threaded use"},
+			Outside:     []string{"heaps of more than `items` entries; more than one removal before draining"}},
 		{Name: "emap", Pkg: "internal/emap", Files: []string{"internal_emap/c25_emap.go"}, Entry: "VerifC25EMap",
 			Reach:       []string{"add-duplicate", "expired"},
 			Stubs:       []string{"set.Bits (a math/big bit set) is executed on concrete big integers"},
